@@ -66,7 +66,7 @@ def gsi_block(dfc=b"STL25.01", dsc=b"1", cct=b"00", lc=b"09", tnb=0, tns=0, tng=
   return out
 
 
-def tti_block(sgn=0, sn=0, ebn=0xFF, cs=0, tci=(0, 0, 0, 0), tco=(0, 0, 1, 0), vp=20, jc=2, cf=0, tf=b"") -> bytes:
+def tti_block(sgn=0, sn=0, ebn=0xFF, cs=0, tci=(0, 0, 1, 0), tco=(0, 0, 2, 0), vp=20, jc=2, cf=0, tf=b"") -> bytes:
   """128-byte TTI block; TF is padded with 8Fh to 112 bytes."""
   tf = bytes(tf)
   if len(tf) > TF_SIZE:
